@@ -113,10 +113,11 @@ theorem candidates_sound (cfg : Cfg) (ms : List Meth) (hid : (ms.map (·.id)).No
 
 /-! ## (d) the entries built by the bottom-up half of `resolve` -/
 
-/-- the fall-through entry of a dependent dispatcher: the callable of the next rank -/
+/-- the fall-through entry of a dependent dispatcher: the callable of the next rank, or the ambiguity of a tied
+    next rank -/
 def nxtOf (below : List (Rank Entry (List Nat))) : Entry :=
   match below with
-  | r :: _ => (match r.func with | some e => e | none => Entry.noNext)
+  | r :: _ => (match r.func with | some e => e | none => Entry.ambNext r.err)
   | [] => Entry.noNext
 
 theorem mkRanks_cons (ms : List Meth) (g : List Cand) (gs : List (List Cand)) :
@@ -130,15 +131,34 @@ theorem mkRanks_cons (ms : List Meth) (g : List Cand) (gs : List (List Cand)) :
         codes := (g.map (·.id)).filterMap (codeOf ms), err := g.map (·.id) } :: mkRanks ms gs := rfl
 
 theorem nxtOf_handlers (below : List (Rank Entry (List Nat))) (id : Nat) (h : id ∈ (nxtOf below).handlers) :
-    ∃ r ∈ below, ∃ e, r.func = some e ∧ id ∈ e.handlers := by
+    ∃ r ∈ below, (∃ e, r.func = some e ∧ id ∈ e.handlers) ∨ id ∈ r.err := by
   cases below with
   | nil => simp [nxtOf, Entry.handlers] at h
   | cons r rest =>
     cases hf : r.func with
-    | none => simp [nxtOf, hf, Entry.handlers] at h
+    | none =>
+      simp only [nxtOf, hf, Entry.handlers] at h
+      exact ⟨r, List.mem_cons_self, Or.inr h⟩
     | some e =>
       simp only [nxtOf, hf] at h
-      exact ⟨r, List.mem_cons_self, e, hf, h⟩
+      exact ⟨r, List.mem_cons_self, Or.inl ⟨e, hf, h⟩⟩
+
+/-- the ids a rank reports as its ambiguity are ids of candidates -/
+theorem mkRanks_err (ms : List Meth) : ∀ (gs : List (List Cand)) (r : Rank Entry (List Nat)),
+    r ∈ mkRanks ms gs → ∀ id ∈ r.err, ∃ c ∈ gs.flatten, c.id = id := by
+  intro gs
+  induction gs with
+  | nil => intro r hr; cases hr
+  | cons g gs ih =>
+    intro r hr id hid
+    rw [mkRanks_cons] at hr
+    rw [List.flatten_cons]
+    rcases List.mem_cons.mp hr with rfl | hr'
+    · dsimp only at hid
+      obtain ⟨c, hc, hcid⟩ := List.mem_map.mp hid
+      exact ⟨c, List.mem_append_left _ hc, hcid⟩
+    · obtain ⟨c, hc, hcid⟩ := ih r hr' id hid
+      exact ⟨c, List.mem_append_right _ hc, hcid⟩
 
 theorem mkRanks_handlers (ms : List Meth) : ∀ (gs : List (List Cand)) (r : Rank Entry (List Nat)),
     r ∈ mkRanks ms gs → ∀ e, r.func = some e → ∀ id ∈ e.handlers, ∃ c ∈ gs.flatten, c.id = id := by
@@ -162,8 +182,9 @@ theorem mkRanks_handlers (ms : List Meth) : ∀ (gs : List (List Cand)) (r : Ran
         rw [Entry.handlers] at hid
         rcases List.mem_append.mp hid with h1 | h2
         · exact ofG h1
-        · obtain ⟨r', hr', e', he', hid'⟩ := nxtOf_handlers _ id h2
-          exact lift (ih r' hr' e' he' id hid')
+        · obtain ⟨r', hr', ⟨e', he', hid'⟩ | herr⟩ := nxtOf_handlers _ id h2
+          · exact lift (ih r' hr' e' he' id hid')
+          · exact lift (mkRanks_err ms gs r' hr' id herr)
       · split at he
         · rename_i id' hids
           cases Option.some.inj he
